@@ -23,7 +23,7 @@ Definition nonuid_fss (c : option cmd) : bool :=
   | Some (CFetch false _ _ _) | Some (CStore false _ _ _) | Some (CSearch false _ _ _) => true
   | _ => false
   end.
-Definition is_select (c : option cmd) : bool := match c with Some (CSelect _) => true | _ => false end.
+Definition is_select (c : option cmd) : bool := match c with Some (CSelect _ _) => true | _ => false end.
 Definition is_unselect (c : option cmd) : bool :=
   match c with Some CClose | Some CUnselect => true | _ => false end.
 Definition is_ok (s : status) : bool := match s with StOK => true | _ => false end.
